@@ -122,3 +122,89 @@ def run(rep, ctx):
     g = ctx.g
     run_T(rep, g)
     run_T3(rep, g)
+
+
+# ------------------------------------------------------------------------------------------
+# P / N
+
+def requires_hold(g, entry):
+    """A reviewed entry may name the guard it relies on: [{"fn": path, "cmp": [lhs_substr, rhs_substr]}].
+    The guard must still be present (a comparison between the two named expressions feeding a branch)."""
+    from ..ranges import Eval, CMP_OPS
+    for rq in entry.get('requires', []):
+        fn = g.fns.get(rq['fn'])
+        if fn is None:
+            return False, 'function %s is gone' % rq['fn']
+        ev = Eval(fn)
+        want_a, want_b = rq['cmp']
+        found = False
+        for bi in fn.reach:
+            for st in fn.stmts(bi):
+                if st[0] == 'a' and st[2][0] == 'bin' and st[2][1] in CMP_OPS:
+                    a, b = ev.canon(st[2][2]), ev.canon(st[2][3])
+                    if (want_a in a and want_b in b) or (want_a in b and want_b in a):
+                        found = True
+            t = fn.term(bi)
+            if t['k'] == 'call' and t['f'].get('name') in ('lt', 'le', 'gt', 'ge', 'eq', 'ne') and len(t['a']) == 2:
+                a = ev._deref_arg(t['a'][0])
+                b = ev._deref_arg(t['a'][1])
+                if a and b:
+                    a, b = ev.canon(a), ev.canon(b)
+                    if (want_a in a and want_b in b) or (want_a in b and want_b in a):
+                        found = True
+            if t['k'] == 'switch' and want_b.startswith('const:'):
+                # switch directly on the integer
+                if want_a in ev.canon(t['d']) and any(('const:%s' % v) == want_b for v, _ in t['v']):
+                    found = True
+        if not found:
+            return False, 'the guard `%s ? %s` that the reviewed reason relies on is no longer present in %s' % (
+                want_a, want_b, rq['fn'])
+    return True, ''
+
+
+def run_P(rep, g, reach):
+    import sys
+    sys.setrecursionlimit(10000)
+    from .. import panic_sites as ps
+    from ..summaries import Summaries
+    rep.rule('P', 'panic-site audit: every Assert terminator (overflow, div/rem by zero, bounds), generic-offset '
+             'arithmetic call, unwrap/expect, panic!/assert!/unreachable!, slice index/copy/split and allocation-size '
+             'site in read-reachable code is (a) proven safe by interval + dominating-guard abstract interpretation, '
+             '(b) matched by an exact-key reviewed entry whose named guard is still present, or (c) a known finding')
+    S = Summaries(g)
+    allsites = []
+    nfn = 0
+    for p in sorted(reach):
+        fn = g.fns[p]
+        sites = ps.enumerate_sites(g, fn)
+        if not sites:
+            continue
+        nfn += 1
+        ev = S.ev(fn)
+        for s in sites:
+            ps.discharge(s, ev)
+        allsites += sites
+    ps.assign_keys(allsites)
+    rep.floor('P', 'panic-capable sites in read-reachable code', len(allsites), 300)
+    for s in allsites:
+        loc = s.fn.loc(s.line)
+        if s.status == 'ok':
+            rep.ok('P', s.key, s.kind, loc, why=s.why)
+            continue
+        entry = rep.tables.reviewed_entry('P', s.key)
+        if entry is not None and entry.get('requires'):
+            ok, why = requires_hold(g, entry)
+            if not ok:
+                rep.add_raw('P', s.key, 'violation', '%s: %s' % (s.kind, why), loc)
+                continue
+        rep.bad('P', s.key, '%s at `%s` is not proven safe (operands can be chosen by the input or the caller)'
+                % (s.kind, s.expr), loc)
+    rep.note('P analysed %d panic-capable sites in %d of %d read-reachable functions' % (len(allsites), nfn, len(reach)))
+    return allsites
+
+
+def run(rep, ctx):   # noqa: F811  (final definition)
+    g = ctx.g
+    run_T(rep, g)
+    reach = run_T3(rep, g)
+    run_P(rep, g, reach)
